@@ -26,6 +26,7 @@ func init() {
 			"Round 5: R6b node states are derived only after every node has loaded its metadata; R9 the metadata archive gets its final name by a rename after it was written completely; R3b a full stage reset stores new uniquifiers. " +
 			"Round 6: R10 (= X8) chunk directories are named alike by doChunks and updateId; R7b an orphaned local node found Running at re-attach is reset on every path. " +
 			"Round 7: R11 extracted metadata files are renamed into place when complete; R3c (= J8) the uniquifier generator orders attempts. " +
+			"R12 in RemoteJobManager.sendJob the queue sentinel is removed only after the submit command has run (must-pass-through). " +
 			"NOT decided: equality of final outputs with an uninterrupted run, behaviour at each individual crash prefix, PID reuse.",
 		Assumptions: commonAssumptions,
 	}
@@ -44,6 +45,7 @@ func runC05(c *an.Ctx) {
 	ruleChunkWidth(c, "R10")
 	ruleOrphanReset(c, "R7b")
 	ruleUniqOrder(c, "R3c")
+	ruleR12(c)
 	ruleR7(c)
 	ruleR7Assume(c)
 }
